@@ -196,7 +196,9 @@ Definition is_run_trace (tr : list tag) : bool :=
 (* a canonical faithful run() skeleton with n statements and k transpile-time registry reads (used by the theorems) *)
 Definition stmt_tags : list tag := [TDsOutSet; TVcDs; TVcReset; TRegGet; TDsOutClear].
 Fixpoint rep {A} (n : nat) (l : list A) : list A := match n with O => [] | S k => l ++ rep k l end.
-Definition run_tags (n k : nat) : list tag := [TParse; TRegSet] ++ rep n stmt_tags ++ rep k [TRegGet] ++ [TTpSet; TTpSet].
+(* the TDsOutClear after the statements is visit_Start's `finally: dataset_output = None` *)
+Definition run_tags (n k : nat) : list tag :=
+  [TParse; TRegSet] ++ rep n stmt_tags ++ [TDsOutClear] ++ rep k [TRegGet] ++ [TTpSet; TTpSet].
 Definition parse_tags : list tag := [TParse].
 
 (* ---------------------------------------------------------------- race search (used to force the witness on the engine) *)
